@@ -428,7 +428,7 @@ class Sched:
     def time(self):
         return self.now
 
-    def sleep(self, d):
+    def sleep(self, d, label=None):
         if self.inline:
             self.step += 1
             self.now += max(d, 0)
@@ -436,7 +436,7 @@ class Sched:
         me = self.current
         wake = self.now + max(d, 0)
         me.wake = wake
-        self.emit('sleep', d=d)
+        self.emit('sleep', d=d, label=label)
         try:
             self.point('sleep', wake, enabled=lambda: self.now >= wake)
         finally:
